@@ -113,11 +113,26 @@ def _sympify_function(func_name: str, func: Callable) -> type[sympy.Function]:
     return sympy_func
 
 
+def _with_integral_limits(expr: Expr) -> Expr:
+    """Write limits of sums and products that are integral floats (a count given as 3.0) as integers.
+
+    The numerical evaluation of a product whose limits differ by a float does not terminate in sympy.
+    """
+
+    def _as_int(bound):
+        return sympy.Integer(int(bound)) if bound.is_Float and bound.is_finite and float(bound).is_integer() else bound
+
+    return expr.replace(
+        lambda e: isinstance(e, (sympy.Sum, sympy.Product)),
+        lambda e: e.func(e.function, *[(limit[0], *map(_as_int, limit[1:])) for limit in e.limits]),
+    )
+
+
 @lru_cache
 def _value_of(expr: Expr) -> Number | None:
     """Compute a numerical value of an expression, return None if it's not possible."""
     try:
-        value = N(expr)
+        value = N(_with_integral_limits(expr))
         if value.is_Float and value != 0 and value.is_finite:
             # NUM_DIGITS_PRECISION significant digits (not decimal places: 1.23456789e-10 keeps all of its digits)
             value = value.round(n=NUM_DIGITS_PRECISION - 1 - int(sympy.floor(sympy.log(abs(value), 10))))
